@@ -44,6 +44,8 @@ def run(tier="quick"):
     np4 = R.check_parse_close_before_pop(chk, u)
     R.check_null_literal_args(chk, prog, u, "P5")
     chk.count("line_discard_sites", R.check_discarded_lines(chk, u, "P7"), floor=1)
+    chk.rule("P9", "a stream the parser opens itself is closed, returned or handed to the file stack on every path")
+    chk.count("streams_opened_into_locals", R.check_stream_leaks(chk, prog, u, "P9"), floor=1)
     np6 = R.check_push_initialises(chk, prog, u, "P6")
     chk.count("entry_taking_functions", np6, floor=3)
     diags = facts.clang_diagnostics(warn_flags=["-Wuninitialized", "-Wsometimes-uninitialized"], units=["conf.c"])
